@@ -25,7 +25,7 @@ def load_mutants():
     out = []
     d = os.path.join(HERE, 'mutants')
     for fn in sorted(os.listdir(d)):
-        if fn.endswith('.json'):
+        if fn.endswith('.json') and fn != 'test_survival.json':
             with open(os.path.join(d, fn)) as fh:
                 for m in json.load(fh):
                     m['source'] = fn
